@@ -2,6 +2,8 @@ package main
 
 import (
 	"fmt"
+	"go/constant"
+	"go/token"
 	"sort"
 	"strings"
 
@@ -222,11 +224,64 @@ func (fi *FuncInfo) valueBF(v ssa.Value, depth int) *BF {
 			return bfNot(fi.valueBF(x.X, depth+1))
 		}
 	case *ssa.Phi:
-		if f := fi.phiBF(x, depth); f != nil {
+		if f := fi.phiBF(x, depth, nil); f != nil {
 			return f
+		}
+	case *ssa.BinOp:
+		// comparison of a merged value with a constant: expand per incoming value
+		if x.Op == token.EQL || x.Op == token.NEQ {
+			ph, k := asPhiConst(x.X, x.Y)
+			if ph != nil {
+				eq := x.Op == token.EQL
+				f := fi.phiBF(ph, depth, func(e ssa.Value) *BF {
+					if ek, ok := e.(*ssa.Const); ok {
+						same := ek.Value != nil && k.Value != nil && ek.Value.ExactString() == k.Value.ExactString() || ek.Value == nil && k.Value == nil
+						return bfConst(same == eq)
+					}
+					if nonEmptyString(e) && k.Value != nil && k.Value.ExactString() == `""` {
+						return bfConst(!eq)
+					}
+					return atomBF(&Sym{K: KBin, Name: x.Op.String(), Args: []*Sym{fi.Sym(e), fi.Sym(k)}}, true)
+				})
+				if f != nil {
+					return f
+				}
+			}
 		}
 	}
 	return atomBF(fi.Sym(v), true)
+}
+
+func asPhiConst(a, b ssa.Value) (*ssa.Phi, *ssa.Const) {
+	if ph, ok := a.(*ssa.Phi); ok {
+		if k, ok := b.(*ssa.Const); ok {
+			return ph, k
+		}
+	}
+	if ph, ok := b.(*ssa.Phi); ok {
+		if k, ok := a.(*ssa.Const); ok {
+			return ph, k
+		}
+	}
+	return nil, nil
+}
+
+// nonEmptyString: fmt.Sprintf / Errorf-style call whose constant format starts
+// with literal text, or a non-empty string constant.
+func nonEmptyString(v ssa.Value) bool {
+	call, ok := v.(*ssa.Call)
+	if !ok {
+		return false
+	}
+	callee := call.Common().StaticCallee()
+	if callee == nil || callee.Pkg == nil || callee.Pkg.Pkg.Path() != "fmt" || callee.Name() != "Sprintf" {
+		return false
+	}
+	if k, ok := call.Common().Args[0].(*ssa.Const); ok && k.Value != nil {
+		s := constant.StringVal(k.Value)
+		return len(s) > 0 && s[0] != '%'
+	}
+	return false
 }
 
 const maxPaths = 4096
@@ -234,7 +289,10 @@ const maxPaths = 4096
 // phiBF: formula of a boolean phi = OR over the acyclic paths from the
 // immediate dominator of the phi's block to each incoming edge of
 // (branch conditions on the path AND incoming value).
-func (fi *FuncInfo) phiBF(phi *ssa.Phi, depth int) *BF {
+func (fi *FuncInfo) phiBF(phi *ssa.Phi, depth int, edgeBF func(ssa.Value) *BF) *BF {
+	if edgeBF == nil {
+		edgeBF = func(e ssa.Value) *BF { return fi.valueBF(e, depth+1) }
+	}
 	blk := phi.Block().Index
 	start := fi.Idom[blk]
 	if start < 0 {
@@ -264,7 +322,7 @@ func (fi *FuncInfo) phiBF(phi *ssa.Phi, depth int) *BF {
 				for ei, pr := range phi.Block().Preds {
 					if pr.Index == b {
 						count++
-						disj = append(disj, bfAnd(append(c, fi.valueBF(phi.Edges[ei], depth+1))...))
+						disj = append(disj, bfAnd(append(c, edgeBF(phi.Edges[ei]))...))
 					}
 				}
 				continue
